@@ -21,15 +21,15 @@ Definition h2_code (s : h2) : positive :=
   N.succ_pos (mix [(n_c2 (c2 s), 16); (n_d2 (d2 s), 6); (n_ocause (ctx2 s), 4); (n_oerr (abort2 s), 7);
                    (n_bool (sent_hdr s), 2); (n_bool (sent_end s), 2); (n_obool (resp2 s), 3);
                    (n_bool (peer_end s), 2); (n_rst (rst2 s), 3); (n_bool (bclosed2 s), 2);
-                   (n_bool (donec2 s), 2); (n_bres (pipe2 s), 12); (n_bool (failed2 s), 2)]).
+                   (n_bool (donec2 s), 2); (n_bres (pipe2 s), 12); (n_bool (failed2 s), 2); (n_bool (rstall s), 2)]).
 Local Close Scope N_scope.
 
 Definition labels2 : list label2 :=
-  [YAcquired; YHdrWritten; YHdrExpect; Y100; YBodyWritten; YResp true; YResp false; YData; YEnd; YReadEOF; YPeerRst;
+  [YAcquired; YHdrWritten; YHdrExpect; Y100; YReadStall; YReadResume; YBodyWritten; YResp true; YResp false; YData; YEnd; YReadEOF; YPeerRst;
    YCancel CCanceled; YCancel CDeadline; YCancel CTimeout] ++ internals2.
 
 Lemma labels2_all : forall l, In l labels2.
-Proof. intros l. unfold labels2, internals2. destruct l as [| | | | |[]| | | | |[]| | | | | | | | | |]; cbn; tauto. Qed.
+Proof. intros l. unfold labels2, internals2. destruct l as [| | | | | | |[]| | | | |[]| | | | | | | | | |]; cbn; tauto. Qed.
 
 Definition M2 (hb : bool) : smap h2 :=
   match explore h2 label2 (step2 hb) h2_code h2_eqb labels2 400 init2 with
@@ -90,7 +90,7 @@ Definition progress2_b (hb : bool) (s : h2) : bool :=
        existsb (enabled2 hb s) [KCtx; KAbort; KPeerEnd]) &&
       (* doRequest itself can always move on: every blocking point watches the context, the wait for
          flow-control credit through the abort the context triggers (KCtxAbort) *)
-      (exited2 s || existsb (enabled2 hb s) [KCtx; KAbort; KPeerEnd; KCtxAbort])
+      (exited2 s || rstall s || existsb (enabled2 hb s) [KCtx; KAbort; KPeerEnd; KCtxAbort])
   end.
 Lemma progress2_all : forall hb, allM h2 (progress2_b hb) (M2 hb) = true.
 Proof. all_hb. Qed.
@@ -155,16 +155,36 @@ Qed.
 
 Theorem h2_cancel_progress : forall hb s, reach2 hb s -> (exists c, ctx2 s = Some c) ->
   (returned2 s = false -> exists l, In l [JResp; JAbort; JCtx; JDone; JDoneCtx; KCtx; KAbort; KPeerEnd] /\ step2 hb s l <> None) /\
-  (exited2 s = false -> exists l, In l [KCtx; KAbort; KPeerEnd; KCtxAbort] /\ step2 hb s l <> None).
+  (exited2 s = false -> rstall s = false -> exists l, In l [KCtx; KAbort; KPeerEnd; KCtxAbort] /\ step2 hb s l <> None).
 Proof.
   intros hb s R [c C]. pose proof (inv2 progress2_b progress2_all hb s R) as H. unfold progress2_b in H.
   rewrite C in H. apply andb_prop in H as [H1 H2]. split.
   - intros NR. rewrite NR in H1. cbn [orb] in H1. apply orb_prop in H1 as [H1|H1];
       apply existsb_exists in H1 as [l [I E]]; exists l; (split; [cbn in I |- *; tauto|]);
       unfold enabled2 in E; destruct (step2 hb s l); discriminate.
-  - intros NE. rewrite NE in H2. cbn [orb] in H2.
+  - intros NE NS. rewrite NE, NS in H2. cbn [orb] in H2.
     apply existsb_exists in H2 as [l [I E]]. exists l. split; [exact I|].
     unfold enabled2 in E. destruct (step2 hb s l); discriminate.
+Qed.
+
+(* the caller itself never depends on the request body's reader: even while doRequest is blocked inside
+   Request.Body.Read (rstall), a caller whose context has ended can move - in particular out of the
+   wait that follows an abort by the peer (waitDone watches the context) *)
+Definition caller_free_b (hb : bool) (s : h2) : bool :=
+  match ctx2 s with
+  | None => true
+  | Some _ => returned2 s || negb (rstall s) || existsb (enabled2 hb s) [JResp; JAbort; JCtx; JDone; JDoneCtx]
+  end.
+Lemma caller_free_all : forall hb, allM h2 (caller_free_b hb) (M2 hb) = true.
+Proof. all_hb. Qed.
+
+Theorem h2_caller_returns_despite_stalled_reader : forall hb s, reach2 hb s -> (exists c, ctx2 s = Some c) ->
+  rstall s = true -> returned2 s = false ->
+  exists l, In l [JResp; JAbort; JCtx; JDone; JDoneCtx] /\ step2 hb s l <> None.
+Proof.
+  intros hb s R [c C] ST NR. pose proof (inv2 caller_free_b caller_free_all hb s R) as H. unfold caller_free_b in H.
+  rewrite C, ST, NR in H. cbn [negb orb] in H. apply existsb_exists in H as [l [I E]].
+  exists l. split; [exact I|]. unfold enabled2 in E. destruct (step2 hb s l); discriminate.
 Qed.
 
 Example h2_nonvacuous :
